@@ -1170,6 +1170,8 @@ THEOREMS = [
     "C16.caller_id", "C16.constructors_share", "C16.derived_shares", "C16.program_fuel", "C16.request_auto",
     "C16.test_covers", "C16.no_other_writer", "C16.hdr_init_ok", "C16.request_spec", "C16.auth_chain_keeps",
     "C16.request_supplied_id", "C16.request_caller_id", "C16.request_auto_sent", "C16.par_world",
+    "C16.par_link", "C16.parCore_total", "C16.request_cases", "C16.history_ids_distinct",
+    "C16.history_from_scratch",
 ]
 
 
@@ -2222,9 +2224,12 @@ KNOWN = {}
 
 LEVEL_TEXT = ("Proved in Lean for every program of the WellLocked shape, any number of threads and EVERY schedule "
               "(invariant + ghost-log refinement to 'take a number atomically', no enumeration): returned numbers "
-              "pairwise distinct within and between threads (locked_unique), no gaps and no foreign numbers at any "
-              "moment (locked_gap_free), increasing per thread (locked_in_order); par_ids / par_total = the function "
-              "the driver executes for a forced schedule always terminates (no deadlock) and hands out exactly "
+              "pairwise distinct within and between threads (locked_unique); at any moment every number below the "
+              "counter is had (returned to, or held after its write by) exactly one thread and nothing else is "
+              "returned (locked_gap_free, one-owner form); increasing per thread (locked_in_order); par_ids / par_total = the function "
+              "the driver executes for a forced schedule always terminates (no deadlock; par_total under the fuel "
+              "hypothesis reqs[t] * program length <= 10^6 drain steps, which the driver does not check) and hands "
+              "out exactly "
               "{c..c'-1}, c' - c = number of calls; par_world = the same on what is sent: ids of concurrent requests "
               "of one connection family are pairwise distinct renderings of the next #ids numbers, requests with "
               "their own id keep their headers and take nothing, caller dicts untouched. Sequential, whole "
@@ -2239,11 +2244,20 @@ LEVEL_TEXT = ("Proved in Lean for every program of the WellLocked shape, any num
               "_generate_request_id assigns counter / lock / connection part: a request that fails in the opener "
               "keeps its number, and the logging helpers do not modify the request they log), program_fuel. request_supplied_id: an id present after the adapters ran (the "
               "caller's header or one put there by an adapter of the caller's) is sent and takes no number. "
-              "format_injective. model = code: sequential scenarios "
+              "format_injective. History level (history_ids_distinct / history_from_scratch): over ANY list of "
+              "operations (new connections, derived connections of any class, caller dicts, sequential requests "
+              "with or without own id / body, concurrent batches under any schedule) no implementation object ever "
+              "sends the same generated id twice and every sent generated id renders a number below its counter. "
+              "par_link: World.par (what the driver calls) = adapters, then parCore (what par_world is about); "
+              "parCore_total: parCore cannot fail on well-formed input (its AssertionError branch is unreachable). "
+              "model = code: sequential scenarios "
               "(incl. reuse of caller dicts, all constructor pairs) and forced interleavings of real threads inside "
               "the real function (opcode-level scheduler, also on never-used connections) compared id by id and "
               "caller dict by caller dict with the compiled model.")
-LEVEL_NOTE = ("Partial by nature: CPython's 'threads switch only between bytecodes' and threading.Lock are trusted, not "
+LEVEL_NOTE = ("Only _generate_request_id is interleaved at bytecode granularity (in the model and by the forced "
+              "scheduler of the tie); the rest of do_request is executed atomically per request in the model - its "
+              "only shared state is the counter, which it reads once for the None test (checked by the translator: "
+              "no other writer). Partial by nature: CPython's 'threads switch only between bytecodes' and threading.Lock are trusted, not "
               "proved; exception paths of the with statement (asynchronous exceptions) are not modelled; the "
               "translator (dis + symbolic stack evaluation, cross-checked against a traced call; pattern checks of "
               "the constructors and of RequestArguments.__init__) and the adapter are trusted; model = code only on "
